@@ -36,7 +36,6 @@ ACTIVE_EXCLUSIONS = {
     'C14-deepnodelist-pool-collision',
     'C14-range-splitText-detached',
     'C14-range-splitText-start-after-end',
-    'C14-removeAttributeNS-keeps-id',
 }
 _no = os.environ.get('VERIF_C14_NOEXCL', '')
 if _no == 'all': ACTIVE_EXCLUSIONS = set()
